@@ -33,6 +33,8 @@ def _worker(batch, slow=False):
             continue
         rec['ex'] = {k: ex[k] for k in ('rules', 'funs', 'flags', 'ignored', 'rule_names', 'classes')}
         rec['named'] = hasattr(g, '_ctx')
+        if 'fuel' in opts:
+            rec['fuel'] = opts['fuel']
         entries = opts.get('entries')
         if entries is None:
             low = [n.lower() for n in ex['rule_names']]
@@ -61,7 +63,7 @@ def request_line(rec, lf=True):
     ex = rec['ex']
     cases = [[core.codes(t.encode('latin-1') if False else t), rxt, entry, pos, full]
              for (t, rxt, entry, pos, full, _, _) in rec['cases']]
-    return core.sx(['runs', lf, rec['named'], ex['ignored'], ex['rules'], ex['funs'], FUEL, cases])
+    return core.sx(['runs', lf, rec['named'], ex['ignored'], ex['rules'], ex['funs'], rec.get('fuel', FUEL), cases])
 
 
 def _recheck_timeouts(recs, jobs):
@@ -220,24 +222,28 @@ def compare(R, recs, stream, mechanism_of=None, check_parse=True, sample_every=9
             nontrivial = c == 'agree' and not ix.startswith('(done false 0)')
             R.count(stream, (r['desc'], text, entry, pos, full), nontrivial)
             bump('raw:' + (ix.split(' ')[0] + (' ' + ix.split(' ')[1] if ix.startswith('(done') else '')) + ':' + c)
-            if c == 'differ':
-                R.disagree(stream, case, ix, mx)
-            else:
-                R.traces += 1
             v = spec_verdict(ix, ms)
-            bump('spec:' + v)
             case['model_agrees'] = (c != 'differ')
+            mech = None
             if v == 'violation':
                 mech = mechanism_of(r, case, ix, ms) if mechanism_of else 'peg-semantics'
+            if c == 'differ':
+                R.disagree(stream, case, ix, mx, explained_by=mech)
+            else:
+                R.traces += 1
+            bump('spec:' + v)
+            if v == 'violation':
                 R.counterexample(stream, mech, case, ms, ix)
             if check_parse:
                 c2 = classify_parse(ip, mp)
-                if c2 == 'differ':
-                    R.disagree(stream + ':parse', case, ip, mp)
                 v2 = spec_parse_verdict(ip, mq)
+                mech2 = None
+                if v2 == 'violation':
+                    mech2 = mech if v == 'violation' else (mechanism_of(r, case, ip, mq) if mechanism_of else 'parse-outcome')
+                if c2 == 'differ':
+                    R.disagree(stream + ':parse', case, ip, mp, explained_by=mech2)
                 if v2 == 'violation' and v != 'violation':
-                    mech = mechanism_of(r, case, ip, mq) if mechanism_of else 'parse-outcome'
-                    R.counterexample(stream + ':parse', mech, case, mq, ip)
+                    R.counterexample(stream + ':parse', mech2, case, mq, ip)
             if n % sample_every == 1 and len(R.samples) < 10:
                 R.samples.append({'case': case, 'implementation': ix, 'model': mx, 'spec': ms})
     return n
